@@ -35,6 +35,7 @@ fn generators(cfg: &Cfg) -> Vec<Generator> {
     vec![
         Generator { name: "programs", total: cfg.tier.pick(1_500, 60_000), run: run_program, case_cpu_limit_s: 120 },
         Generator { name: "tagcases", total: tag_cases().len() as u64, run: run_tagcase, case_cpu_limit_s: 120 },
+        Generator { name: "layouts", total: cfg.tier.pick(200, 6_000), run: run_layout, case_cpu_limit_s: 120 },
     ]
 }
 
@@ -50,19 +51,21 @@ fn compare(stats: &mut Stats, generator: &str, index: u64, sources: &Sources, re
         return;
     };
     let interp = pipeline::run_executable(exe1, b"", &[], 2_000_000);
-    let backend = match lower(exe2) {
-        | Lowered::Ok(b) => b,
-        | Lowered::DefinedError(_) => {
+    // Only the stages up to the first-order stack-passing program: the assembly stage behind it does not take every
+    // accepted match (C18's known findings), and this property is about the program in front of it.
+    let sps_low = match crate::util::panic::catch(|| lower_to_sps_low(exe2)) {
+        | Ok(Ok(p)) => p,
+        | Ok(Err(_)) => {
             stats.inconclusive("lowering reported a defined error");
             return;
         }
-        | Lowered::Panic(_) => {
+        | Err(_) => {
             // C18's subject (known findings live there)
             stats.inconclusive("lowering panicked (C18)");
             return;
         }
     };
-    let machine = spsm::run(&backend.sps_low, b"", 4_000_000);
+    let machine = spsm::run(&sps_low, b"", 4_000_000);
     stats.count("three_way_runs");
     stats.add("sps_machine_steps", machine.steps);
     for f in &machine.forms {
@@ -116,15 +119,20 @@ fn compare(stats: &mut Stats, generator: &str, index: u64, sources: &Sources, re
     }
 }
 
+/// The lowering of `BackendProgram::lower` up to `SpsLowProgram`, through the same public passes.
+fn lower_to_sps_low(executable: zydeco_session::ExecutableProgram) -> Result<zydeco_stackir::SpsLowProgram, String> {
+    use zydeco_utils::pass::CompilerPass;
+    let zydeco_session::ExecutableProgram { spans, scoped, statics, root, signature } = executable;
+    let mut lowering_scoped = zydeco_surface::scoped::arena::ScopedArena::default();
+    lowering_scoped.defs = statics.scoped_definitions(&scoped);
+    let stackir = zydeco_stackir::BuiltinRootLowerer::new(&spans, &mut lowering_scoped, &statics, root, signature).run().map_err(|e| format!("{e:?}"))?;
+    Ok(zydeco_stackir::SpsLowPipeline::new(&mut lowering_scoped).run(stackir))
+}
+
 fn run_program(cfg: &Cfg, index: u64, stats: &mut Stats) {
     let program = e1::generate::generate(cfg.seed, "C19", index);
     let tags = trigger_tags(&program);
     stats.evaluations += 1;
-    // programs in the triggered partition of C18's known findings do not lower: not this property's subject
-    if tags.iter().any(|t| t == "match-catch-all" || t == "nested-ctor-pattern") {
-        stats.count("skipped_backend_known_trigger");
-        return;
-    }
     let reference = e1::eval::run(&program, 400_000);
     let RefEnd::Exit(code) = reference.end else {
         stats.inconclusive("reference did not reach an exit");
@@ -167,4 +175,107 @@ fn run_tagcase(_cfg: &Cfg, index: u64, stats: &mut Stats) {
     stats.evaluations += 1;
     stats.cover("tag_cases", case.name);
     compare(stats, "tagcases", index, &sources, None, vec![case.name.to_string()], 5);
+}
+
+/* ------------------------------------------------------------------------------------------------------------
+ * Product layout under type abstraction. A product value is seen at two types whenever it crosses a type
+ * abstraction: the polymorphic side knows `Int64 * A`, its caller `Int64 * (Int64 * Int64)`. Products are
+ * right-nested (`(7, 5, 0)` and `(7, (5, 0))` are one value), so whatever layout the lowering picks must be the same
+ * on both sides. Each case builds a product on one side of an abstraction and takes it apart on the other, with a
+ * random prefix, a random position of the abstract component and a random instantiation; the exit code is a digit
+ * string of the components read back, so that a read from the wrong field is seen as well as a stuck machine.
+ * ------------------------------------------------------------------------------------------------------------ */
+
+fn run_layout(cfg: &Cfg, index: u64, stats: &mut Stats) {
+    let mut rng = Rng::for_case(cfg.seed, "C19/layouts", index);
+    // the instantiation: a type, a value of it, a pattern reading it back into the variables `names`
+    let inst = rng.below(6);
+    let (inst_ty, inst_val, inst_pat, inst_vars): (&str, &str, &str, Vec<&str>) = match inst {
+        | 0 => ("Int64", "5", "p0", vec!["p0"]),
+        | 1 => ("(Int64 * Int64)", "(5, 3)", "(p0, p1)", vec!["p0", "p1"]),
+        | 2 => ("(Int64 * Int64 * Int64)", "(5, 3, 2)", "(p0, p1, p2)", vec!["p0", "p1", "p2"]),
+        | 3 => ("(Int64 * (Int64 * Int64))", "(5, (3, 2))", "(p0, (p1, p2))", vec!["p0", "p1", "p2"]),
+        | 4 => ("((Int64 * Int64) * Int64)", "((5, 3), 2)", "((p0, p1), p2)", vec!["p0", "p1", "p2"]),
+        | _ => ("Unit", "()", "()", vec![]),
+    };
+    let prefix = 1 + rng.below(2); // concrete Int64 fields before
+    let suffix = rng.below(2); // concrete Int64 fields after: 0 puts the abstract component in tail position
+    let direction = rng.below(4);
+    let mechanism = rng.below(3);
+    let fields_ty = |a: &str| -> String {
+        let mut v: Vec<String> = (0..prefix).map(|_| "Int64".to_string()).collect();
+        v.push(a.to_string());
+        v.extend((0..suffix).map(|_| "Int64".to_string()));
+        v.join(" * ")
+    };
+    let fields_val = |a: &str| -> String {
+        let mut v: Vec<String> = (0..prefix).map(|i| format!("{}", 7 + i)).collect();
+        v.push(a.to_string());
+        v.extend((0..suffix).map(|i| format!("{}", 1 + i)));
+        format!("({})", v.join(", "))
+    };
+    let fields_pat = |a: &str| -> String {
+        let mut v: Vec<String> = (0..prefix).map(|i| format!("a{i}")).collect();
+        v.push(a.to_string());
+        v.extend((0..suffix).map(|i| format!("z{i}")));
+        format!("({})", v.join(", "))
+    };
+    let mut read: Vec<String> = (0..prefix).map(|i| format!("a{i}")).collect();
+    read.extend(inst_vars.iter().map(|s| s.to_string()));
+    read.extend((0..suffix).map(|i| format!("z{i}")));
+    // exit code: fold the components read back into one number (small digits, at most 6 of them)
+    let mut fold = String::new();
+    fold.push_str("do acc <- ret 0;\n");
+    for v in &read {
+        fold.push_str(&format!("do acc <- ! mul acc 3;\ndo acc <- ! add acc {v};\n"));
+    }
+    fold.push_str("! exit acc\n");
+    let abs_ty = fields_ty("A");
+    let conc_ty = fields_ty(inst_ty);
+    let (head, intro, elim) = match mechanism {
+        // definitions with a type parameter
+        | 0 => ("def", format!("def ! build (A : VType) (a : A) : Ret ({abs_ty}) = ret {} that\n", fields_val("a")), format!("def ! part (A : VType) (p : {abs_ty}) : Ret A = let {} = p in ret a that\n", fields_pat("a"))),
+        // thunks of type abstractions bound with `let`
+        | 1 => ("thunk", format!("let build = {{ fn (A : VType) (a : A) => ret ({} : {abs_ty}) }} in\n", fields_val("a")), format!("let part = {{ fn (A : VType) (p : {abs_ty}) => let {} = p in ret a }} in\n", fields_pat("a"))),
+        // the polymorphic side passed as an argument (a rank-2 parameter)
+        | _ => ("rank2", format!("let build = {{ fn (A : VType) (a : A) => ret ({} : {abs_ty}) }} in\n", fields_val("a")), format!("let part = {{ fn (A : VType) (p : {abs_ty}) => let {} = p in ret a }} in\n", fields_pat("a"))),
+    };
+    let body = match direction {
+        // built under the abstraction, taken apart at the instance
+        | 0 => format!("{intro}do p <- ! build {inst_ty} {inst_val};\nlet {} = p in\n{fold}", fields_pat(inst_pat)),
+        // built at the instance, taken apart under the abstraction (the abstract component comes back)
+        | 1 => {
+            let back: Vec<String> = inst_vars.iter().map(|s| s.to_string()).collect();
+            let mut f = String::from("do acc <- ret 0;\n");
+            for v in &back {
+                f.push_str(&format!("do acc <- ! mul acc 3;\ndo acc <- ! add acc {v};\n"));
+            }
+            f.push_str("! exit acc\n");
+            format!("{elim}do r <- ! part {inst_ty} ({} : {conc_ty});\nlet {inst_pat} = r in\n{f}", fields_val(inst_val))
+        }
+        // built and taken apart under the abstraction (control: one side only)
+        | 2 => format!("{intro}{elim}do p <- ! build {inst_ty} {inst_val};\ndo r <- ! part {inst_ty} p;\nlet {inst_pat} = r in\n{}", {
+            let mut f = String::from("do acc <- ret 0;\n");
+            for v in &inst_vars {
+                f.push_str(&format!("do acc <- ! mul acc 3;\ndo acc <- ! add acc {v};\n"));
+            }
+            f.push_str("! exit acc\n");
+            f
+        }),
+        // built at the instance, stored, and taken apart at the instance (control: no abstraction crossed)
+        | _ => format!("let p : {conc_ty} = {} in\nlet {} = p in\n{fold}", fields_val(inst_val), fields_pat(inst_pat)),
+    };
+    let text = if head == "def" || direction == 3 { format!("begin\n{body}end\n") } else { body.clone() };
+    let sources = Sources::single(format!("{}{}", crate::prelude::MiniPrelude::core().text(), text));
+    stats.evaluations += 1;
+    let crossing = direction < 2;
+    let abstract_in_tail = suffix == 0;
+    let product_instance = (1..=4).contains(&inst);
+    let mut tags = vec![];
+    if crossing && abstract_in_tail && product_instance {
+        tags.push("abstract-tail-of-a-product-instantiated-at-a-product".to_string());
+    }
+    tags.push(format!("{head}/{}", ["built-under-abstraction", "taken-apart-under-abstraction", "both-under-abstraction", "no-abstraction"][direction]));
+    stats.cover("layout_cases", &format!("{head} dir{direction} inst{inst} prefix{prefix} suffix{suffix}"));
+    compare(stats, "layouts", index, &sources, None, tags, 5);
 }
